@@ -17,7 +17,9 @@ def check(tier, seed, t0):
     q = tier == "quick"
     runs = [dict(name="rings", module="Gen_Valid", constants=dict(N=2, Mode="rings", MaxE=5 if q else 6, Stride=1, Offset=0, HoleE=3)),
             dict(name="holes", module="Gen_Valid", constants=dict(N=3, Mode="holes", MaxE=0, Stride=2 if q else 1, Offset=seed % 2 if q else 0, HoleE=3 if q else 4), timeout=3000),
-            dict(name="multi", module="Gen_Valid", constants=dict(N=2, Mode="multi", MaxE=0, Stride=1, Offset=0, HoleE=4))]
+            dict(name="multi", module="Gen_Valid", constants=dict(N=2, Mode="multi", MaxE=0, Stride=1, Offset=0, HoleE=4)),
+            # long rings (28 - 530 coordinates): combs (simple / one tooth touching the far side) and figure-eights through a shared vertex
+            dict(name="bigrings", module="Gen_Valid", constants=dict(N=2, Mode="bigrings", MaxE=0, Stride=1, Offset=0, HoleE=3), invariants=["BigRingsAsBuilt"], workers=4)]
     runs += poly_common.poly_runs(tier)[:1]
     vf.simple_check("C14", tier, seed, t0, runs, RULE, ASSUME,
                     nontrivial=lambda c: (c["op"] == "valid" and (not c["valid"] or len(c["g"].get("holes", [])) > 0 or c["g"]["t"] == "MultiPolygon"))
